@@ -14,7 +14,7 @@ RULE = (
     "levels (ascending / descending / shuffled, with or without node 0 and the top node) passed as Python int, NumPy integer scalar, "
     "list, tuple-free int32 or int64 array. Oracle: slice k of the multi-level result equals the single-level call for levels[k] and "
     "slice levels[k] of the full-column call (<= 1e-13 of the field maximum; bit-identity is counted), the returned height of slice k "
-    "is z[levels[k]] exactly, shapes are (len(levels), ny, nx) (squeezed for one level). Non-trivial = >= 2 levels; distinct = "
+    "is z[levels[k]] exactly, shapes are (len(levels), ny, nx) (squeezed for one level). One case in six repeats the selection through the configuration-driven interface (domain.output_levels of run_bldfm_single against its single-level and full-output runs). Non-trivial = >= 2 levels; distinct = "
     "canonical JSON."
 )
 ASSUMPTIONS = ["levels are distinct (a subset has no repeats)", "shooting growth bounded by exp(13.8) by construction"]
@@ -67,6 +67,9 @@ def _case(draw):
     case["tower"] = draw(gen.tower(case))
     case["bg"] = draw(st.sampled_from([0.0, 3.0]))
     case["precision"] = draw(st.sampled_from(["double", "double", "single"]))
+    # one case in six also asks for its levels the way a user of the configuration-driven interface does
+    # (domain.output_levels of run_bldfm_single), with one of two forcings
+    case["via_config"] = draw(st.sampled_from([None, None, None, None, None, [0.32, -45.0, 3.1, 200.0], [0.41, 120.0, 4.4, 75.0]]))
     return case
 
 
@@ -165,4 +168,53 @@ def check_case(case):
                 )
     out.label("bit-identical" if bit else "rounding-level-differences")
     out.nontrivial = len(lv) >= 2
+    if case.get("via_config"):
+        _via_config(case, lv, out)
     return out
+
+
+def _via_config(case, lv, out):
+    """The same selection of levels requested through the configuration (domain.output_levels) of run_bldfm_single:
+    slot k is the single-level run for the k-th requested level and the k-th requested slice of the full-output run,
+    and reports that level's height."""
+    import dataclasses
+
+    from bldfm import parse_config_dict, run_bldfm_single
+
+    nzc = min(max(lv) + 1, 12) if max(lv) >= 1 else 4
+    lvc = list(dict.fromkeys(int(l) % (nzc + 1) for l in lv))
+    us, mol, ws, wd = case["via_config"]
+    R = 6_371_000.0
+    cfg = parse_config_dict({
+        "domain": {"nx": 8, "ny": 6, "xmax": 160.0, "ymax": 150.0, "nz": nzc, "modes": [8, 6], "ref_lat": 48.0, "ref_lon": 11.0,
+                   "output_levels": list(lvc)},
+        "towers": [{"name": "T", "z_m": 3.5, "lat": 48.0 + float(np.degrees(50.0 / R)),
+                    "lon": 11.0 + float(np.degrees(60.0 / (R * np.cos(np.radians(48.0)))))}],
+        "met": {"ustar": us, "mol": mol, "wind_speed": ws, "wind_dir": wd},
+        "solver": {"closure": "MOST", "footprint": bool(case["footprint"]), "precision": case["precision"]},
+    })
+    out.label("via-config", "via-config-unsorted" if lvc != sorted(lvc) else "via-config-ascending")
+    try:
+        r = run_bldfm_single(cfg, cfg.towers[0])
+        full = run_bldfm_single(dataclasses.replace(cfg, domain=dataclasses.replace(cfg.domain, output_levels=None, full_output=True)),
+                                cfg.towers[0])
+        c3, f3, Z3 = sut.as3d(r["conc"]), sut.as3d(r["flx"]), sut.as3d(r["grid"][2])
+        if c3.shape[0] != len(lvc):
+            out.bad(f"run_bldfm_single with output_levels={lvc} returned {c3.shape[0]} slices")
+            return
+        cF, fF, ZF = np.asarray(full["conc"]), np.asarray(full["flx"]), np.asarray(full["grid"][2])
+        rel = 1e-13 if case["precision"] == "double" else 1e-6
+        for k, l in enumerate(lvc):
+            one = run_bldfm_single(dataclasses.replace(cfg, domain=dataclasses.replace(cfg.domain, output_levels=[l])), cfg.towers[0])
+            z1 = np.asarray(one["grid"][2])
+            if not (np.all(Z3[k] == z1.flat[0]) and np.all(Z3[k] == ZF[l].flat[0])):
+                out.bad(f"run_bldfm_single with output_levels={lvc}: slot {k} reports height {Z3[k].flat[0]!r}, level {l} is at "
+                        f"{ZF[l].flat[0]!r} (single-level run: {z1.flat[0]!r})")
+            for name, got, s1, sF in (("conc", c3[k], sut.as3d(one["conc"])[0], cF[l]), ("flx", f3[k], sut.as3d(one["flx"])[0], fF[l])):
+                scale = max(tol.maxabs(s1), tol.maxabs(sF), 1e-300)
+                if not (tol.maxabs(got - s1) <= rel * scale and tol.maxabs(got - sF) <= rel * scale):
+                    out.bad(f"run_bldfm_single with output_levels={lvc}: {name} slot {k} is not the solution at level {l} (differs from "
+                            f"the single-level run by {tol.maxabs(got - s1):.3e}, from the full-output slice by "
+                            f"{tol.maxabs(got - sF):.3e}; field max {scale:.3e})")
+    except Exception as e:
+        out.bad(f"run_bldfm_single with output_levels={lvc} raised {type(e).__name__}: {e}")
